@@ -34,18 +34,33 @@ def qbytes_mm(activations: torch.Tensor, weights: torch.Tensor, output_scales: t
     return outputs.to(output_scales.dtype)
 
 
+def int_mm(input: torch.Tensor, other: torch.Tensor) -> torch.Tensor:
+    """torch._int_mm on operands whose strides are restated first.
+
+    torch._int_mm infers the memory layout of its operands from their strides: it returns garbage when they are
+    ambiguous (a dimension of size 1 obtained by transposition, e.g. a single row or a single input feature) or
+    when the first operand is not laid out row by row (transposed or expanded views).
+    """
+
+    def canonical(t):
+        # Restate the strides of a contiguous operand (those of its size-1 dimensions are arbitrary)
+        if not t.is_contiguous():
+            return t
+        return t.as_strided(t.shape, (t.shape[1], 1), t.storage_offset())
+
+    return torch._int_mm(canonical(input.contiguous()), canonical(other))
+
+
 def qbytes_int_mm(activations: torch.Tensor, weights: torch.Tensor, output_scales: torch.Tensor) -> torch.Tensor:
     in_features = activations.shape[-1]
     out_features = weights.shape[0]
     # torch._int_mm works on transposed weights, i.e (in_features, out_features)
     weights = weights.t()
-    # torch._int_mm misreads activations that are not laid out row by row (transposed or expanded views)
-    activations = activations.contiguous()
     if activations.ndim == 2:
-        out_data = torch._int_mm(activations, weights)
+        out_data = int_mm(activations, weights)
     else:
         output_shape = activations.shape[:-1] + (out_features,)
-        out_data = torch._int_mm(activations.reshape(-1, in_features), weights)
+        out_data = int_mm(activations.reshape(-1, in_features), weights)
         out_data = out_data.view(output_shape)
     # We must evaluate the output as float32 because the multiplication
     # of the int32 data by the scales might overflow
